@@ -198,13 +198,14 @@ func (c *ConnectorOrchestrator) Update(ctx context.Context, id string, plugin st
 		return nil, err
 	}
 
-	oldConfig := conn.Config
+	// conn is updated in place, remember what has to be restored on rollback
+	oldPlugin, oldConfig := conn.Plugin, conn.Config
 	conn, err = c.connectors.Update(ctx, id, plugin, config)
 	if err != nil {
 		return nil, err
 	}
 	r.Append(func() error {
-		_, err = c.connectors.Update(ctx, id, conn.Plugin, oldConfig)
+		_, err = c.connectors.Update(ctx, id, oldPlugin, oldConfig)
 		return err
 	})
 	err = txn.Commit()
